@@ -392,4 +392,118 @@ theorem scpiLex_StringProgramData_ref (buf : Lexer.Bytes) (n : Nat) (tok : CTok)
   · have hge : buf.length ≤ n := Nat.le_of_not_lt hlt
     simp [iseos_out _ _ hge, iseos_out0 _ _ hge, peekP_out _ _ _ hge, lexc_ref, res, tk, Lexer.mkTok]
 
+/-! ### arbitrary block -/
+
+/-- value of the digit at offset `n` as the model's `blockDigits` adds it -/
+def digAt (buf : Lexer.Bytes) (n : Nat) : Nat :=
+  match buf[n]? with
+  | some b => b.toNat - 48
+  | none => 0
+
+theorem sc_digit (b : UInt8) (h : Lexer.isDigit b = true) : sc b - 48 = ((b.toNat - 48 : Nat) : Int) := by
+  have hh : ∀ n : Fin 256, Lexer.isDigit (UInt8.ofNat n.val) = true →
+      sc (UInt8.ofNat n.val) - 48 = (((UInt8.ofNat n.val).toNat - 48 : Nat) : Int) := by decide +kernel
+  have := hh ⟨b.toNat, UInt8.toNat_lt b⟩
+  simpa [h] using this
+
+/-- THE THIRD LOOP LEMMA: the counted digit loop `for (; i > 0; i--)` of the block recogniser (locals: the length read so
+far and the number of digits still expected) against the model's `blockDigits`. -/
+theorem whileC_block {ρ : Type} (cond : CLex → Int × Int → CLex × Bool) (body : CLex → Int × Int → CLex × (Int × Int) × Flow ρ)
+    (buf : Lexer.Bytes)
+    (ht : ∀ n (a i : Int), tripC cond body (st buf n) (a, i) =
+      if i > 0 ∧ Lexer.peekP buf n Lexer.isDigit = true then (st buf (n + 1), (a * 10 + (digAt buf n : Int), i - 1), Flow.next)
+      else (st buf n, (a, i), Flow.brk)) :
+    ∀ (fuel i n acc : Nat) (a j : Int), a = (acc : Int) → j = (i : Int) → buf.length - n < fuel →
+      whileC cond body fuel (st buf n) (a, j) =
+        (st buf (Lexer.blockDigits buf i n acc).1,
+          ((((Lexer.blockDigits buf i n acc).2.2 : Nat) : Int), (((Lexer.blockDigits buf i n acc).2.1 : Nat) : Int)), none) := by
+  intro fuel
+  induction fuel with
+  | zero => intro i n acc a j _ _ h; omega
+  | succ fuel ih =>
+    intro i n acc a j ha hj hf
+    subst ha hj
+    rw [whileC_succ, ht]
+    cases i with
+    | zero => simp [Lexer.blockDigits]
+    | succ i =>
+      by_cases hp : Lexer.peekP buf n Lexer.isDigit = true
+      · have hlt := peekP_lt hp
+        have hi : ((i + 1 : Nat) : Int) > 0 := by omega
+        have hd : Lexer.isDigit buf[n] = true := by rw [← peekP_in buf n Lexer.isDigit hlt]; exact hp
+        simp only [hi, hp, and_self, if_true]
+        rw [ih i (n + 1) (acc * 10 + (buf[n].toNat - 48)) _ _ (by simp [digAt, hlt]) (by omega) (by omega)]
+        simp [Lexer.blockDigits, hlt, hd]
+      · have hb : Lexer.blockDigits buf (i + 1) n acc = (n, i + 1, acc) := by
+          simp only [Lexer.blockDigits]
+          by_cases hlt : n < buf.length
+          · have hd : Lexer.isDigit buf[n] = false := by
+              rw [← peekP_in buf n Lexer.isDigit hlt]; simpa using hp
+            simp [hlt, hd]
+          · simp [List.getElem?_eq_none (Nat.le_of_not_lt hlt)]
+        simp [hp, hb]
+
+theorem blockDigits_ge (buf : Lexer.Bytes) : ∀ (i n acc : Nat), n ≤ (Lexer.blockDigits buf i n acc).1 := by
+  intro i
+  induction i with
+  | zero => intro n acc; simp [Lexer.blockDigits]
+  | succ i ih =>
+    intro n acc
+    simp only [Lexer.blockDigits]
+    split
+    · split
+      · exact Nat.le_trans (Nat.le_succ n) (ih _ _)
+      · simp
+    · simp
+
+set_option linter.unusedSimpArgs false in
+theorem scpiLex_ArbitraryBlockProgramData_ref (buf : Lexer.Bytes) (n : Nat) (tok : CTok) :
+    scpiLex_ArbitraryBlockProgramData (st buf n) tok = res buf (Lexer.lexBlock buf n) := by
+  by_cases hp : Lexer.peekP buf n (· == 35) = true
+  case neg =>
+    have hs : Lexer.skipOne buf n (· == 35) = n := by simp [Lexer.skipOne, hp]
+    simp [scpiLex_ArbitraryBlockProgramData, Lexer.lexBlock, hp, lexc_ref, one, uc, hs, res, tk, Lexer.mkTok]
+  case pos =>
+    simp only [scpiLex_ArbitraryBlockProgramData, Lexer.lexBlock, hp, if_true]
+    have hs : Lexer.skipOne buf n (· == 35) = n + 1 := by simp [Lexer.skipOne, hp]
+    have hm : (n : Int) + 1 - n = 1 := by omega
+    have hlt := peekP_lt hp
+    by_cases hlt1 : n + 1 < buf.length
+    · by_cases hd : (Lexer.isDigit buf[n + 1] && buf[n + 1] != 48) = true
+      · have hdig : Lexer.isDigit buf[n + 1] = true := by simp at hd; exact hd.1
+        have hne : buf[n + 1] ≠ 48 := by simp at hd; exact hd.2
+        simp [lexc_ref, one, uc, hs, hm, iseos_in _ _ hlt1, iseos_in0 _ _ hlt1, rd_in _ _ hlt1, lexc_cls, hd, hdig, hlt1, hne,
+          sc_digit _ hdig]
+        rw [whileC_block _ _ buf ?ht (buf.length + 1) (buf[n + 1].toNat - 48) (n + 1 + 1) 0 0 _ (by simp) rfl (by omega)]
+        case ht =>
+          intro m a i
+          simp only [tripC]
+          by_cases hi : i > 0
+          · by_cases hltm : m < buf.length
+            · by_cases hdm : Lexer.isDigit buf[m] = true
+              · simp [hi, iseos_in _ _ hltm, iseos_in0 _ _ hltm, rd_in _ _ hltm, peekP_in _ _ _ hltm, lexc_cls, hdm, digAt, hltm,
+                  sc_digit _ hdm, mk_st_succ]
+              · simp [hi, iseos_in _ _ hltm, iseos_in0 _ _ hltm, rd_in _ _ hltm, peekP_in _ _ _ hltm, lexc_cls, hdm]
+            · have hgem := Nat.le_of_not_lt hltm
+              simp [hi, iseos_out _ _ hgem, iseos_out0 _ _ hgem, peekP_out _ _ _ hgem]
+          · simp [hi]
+        have hge := blockDigits_ge buf (buf[n + 1].toNat - 48) (n + 1 + 1) 0
+        generalize Lexer.blockDigits buf (buf[n + 1].toNat - 48) (n + 1 + 1) 0 = r at *
+        rcases r with ⟨p2, irem, blen⟩
+        simp [iseos_eq0, mk_st_add, res, tk, Lexer.mkTok, Lexer.iseos, hlt1, hd, hdig, hne] at *
+        by_cases hfit : p2 + blen ≤ buf.length
+        · have hfit' : (p2 : Int) + (blen : Int) ≤ (buf.length : Int) := by omega
+          simp [hfit, hfit']
+          lexc_close
+        · have hfit' : ¬ ((p2 : Int) + (blen : Int) ≤ (buf.length : Int)) := by omega
+          simp [hfit, hfit']
+          lexc_close
+      · simp [lexc_ref, one, uc, hs, hm, iseos_in _ _ hlt1, iseos_in0 _ _ hlt1, rd_in _ _ hlt1, lexc_cls, hd, hlt1,
+          res, tk, Lexer.mkTok]
+        try lexc_close
+    · have hge1 := Nat.le_of_not_lt hlt1
+      simp [lexc_ref, one, uc, hs, hm, iseos_out _ _ hge1, iseos_out0 _ _ hge1, List.getElem?_eq_none hge1,
+        res, tk, Lexer.mkTok]
+      try lexc_close
+
 end ScpiVerif.Lemmas.LexerC
